@@ -283,6 +283,9 @@ impl KnownOptimumProblem for BitsP {
 #[derive(Clone)]
 pub struct TspP {
     pub n: usize,
+    /// added to the closed tour length (1 keeps the objective strictly positive for degenerate tours; 0 for the
+    /// instances in a very small unit, whose tour lengths are themselves positive and far below f64::EPSILON)
+    pub offset: f64,
     pub dist: Vec<f64>,
     pub name: String,
     pub instr: Instr,
@@ -290,10 +293,11 @@ pub struct TspP {
 impl TspP {
     pub fn new(n: usize, dist: Vec<f64>) -> Self {
         assert_eq!(dist.len(), n * n);
-        Self { n, dist, name: format!("tsp-{n}"), instr: Instr::new() }
+        Self { n, offset: 1.0, dist, name: format!("tsp-{n}"), instr: Instr::new() }
     }
     /// Deterministic matrix from a seed. kind 0: uniform 1..10, 1: clustered, 2: ratio 1e-3..1e6,
-    /// 3: one city astronomically far away (1e150) from a uniform cluster - (1/d)^beta underflows to 0
+    /// 3: one city astronomically far away (1e150) from a uniform cluster - (1/d)^beta underflows to 0,
+    /// 4: uniform 1..10 in a very small unit (1e-18), objective = pure tour length (a few 1e-17)
     pub fn generated(n: usize, kind: u8, seed: u64) -> Self {
         let mut dist = vec![0.0; n * n];
         let mut s = seed.wrapping_mul(0x9E3779B97F4A7C15).wrapping_add(kind as u64 + 1);
@@ -316,6 +320,7 @@ impl TspP {
                         }
                     }
                     2 => 10f64.powf(-3.0 + 9.0 * u),
+                    4 => (1.0 + 9.0 * u) * 1e-18,
                     _ => {
                         if j == n - 1 {
                             1e150 * (1.0 + u)
@@ -328,7 +333,11 @@ impl TspP {
                 dist[j * n + i] = d;
             }
         }
-        Self::new(n, dist)
+        let mut p = Self::new(n, dist);
+        if kind == 4 && n >= 2 {
+            p.offset = 0.0;
+        }
+        p
     }
     pub fn f(&self, tour: &[usize]) -> f64 {
         if tour.is_empty() {
@@ -340,7 +349,7 @@ impl TspP {
         }
         sum += self.d(*tour.last().unwrap(), tour[0]);
         // keep strictly positive so that 1/f is finite
-        sum + 1.0
+        sum + self.offset
     }
     pub fn d(&self, a: usize, b: usize) -> f64 {
         if a < self.n && b < self.n {
